@@ -267,6 +267,10 @@ class World:
                 "object_tree": newick(self.otree, self.onames, self.colors) + ";",
                 "species_tree": newick(self.stree, self.snames) + ";",
                 "leaf_object_species": dict(self.case["leaf_species"]),
+                # unit cost for a full loss, nothing for anything else: the package
+                # evaluator's cost of the reconciliation IS its count of full losses
+                "costs": {"SPECIATION": 0, "DUPLICATION": 0, "HORIZONTAL_TRANSFER": 0,
+                          "FULL_LOSS": 1, "SEGMENTAL_LOSS": 0},
             },
             "object_species": {self.name_of(v): self.sname_of(s) for v, s in self.m.items()},
         }
@@ -647,7 +651,7 @@ def execute(case, focus=None):
             if PEER.fired != fired_before:
                 run.fault("peer_" + op["fault"])
                 # sizes are wrong but the census is not about sizes
-                _check_census(run, world, lay, exp_nodes, exp_losses, where)
+                _check_census(run, world, lay, exp_nodes, exp_losses, where, target)
             run.event(idx, "fault", op["fault"], "survived")
             continue
         try:
@@ -660,7 +664,7 @@ def execute(case, focus=None):
         if case["peer"]["chatter"]:
             run.probe("peer_chatter")
         run.probe("engine_" + case["peer"]["engine"])
-        _check_census(run, world, lay, exp_nodes, exp_losses, where)
+        _check_census(run, world, lay, exp_nodes, exp_losses, where, target)
         dumped = dump_layout(lay)
         _check_geometry(run, world, lay, dumped, where, orient)
         if (orient, okey) in layouts:
@@ -717,7 +721,7 @@ def _first_diff(a, b):
     return "?"
 
 
-def _check_census(run, world, lay, exp_nodes, exp_losses, where):
+def _check_census(run, world, lay, exp_nodes, exp_losses, where, rec):
     PseudoGene = _m["rmodel"].PseudoGene
     sidx = canon.ete_clade_index(next(iter(lay)).get_tree_root())
     oidx = None
@@ -740,6 +744,16 @@ def _check_census(run, world, lay, exp_nodes, exp_losses, where):
     run.check(got_nodes == exp_nodes, ("C13",), "C13.event-census",
               lambda: f"{where}: event nodes per species {got_nodes} differ from the recount "
                       f"{exp_nodes}; mapping {world.document()['object_species']}")
+    # "one loss marker per full loss counted by the evaluator": the package evaluator itself,
+    # asked under unit loss cost (see World.document), not only our recount
+    counted = rec.reconciliation_cost() if hasattr(rec, "reconciliation_cost") else rec.cost()
+    shown = sum(got_losses.values())
+    run.check(counted == shown, ("C13",), "C13.loss-markers-vs-evaluator",
+              lambda: f"{where}: the layout shows {shown} full-loss markers, the package "
+                      f"evaluator counts {counted} full losses (independent recount "
+                      f"{sum(exp_losses.values())}); mapping "
+                      f"{world.document()['object_species']} on "
+                      f"{world.document()['input']['species_tree']}")
     run.check(got_losses == exp_losses, ("C13",), "C13.loss-census",
               lambda: f"{where}: loss markers per species {got_losses}, evaluator counts "
                       f"{exp_losses}; mapping {world.document()['object_species']} on "
